@@ -46,7 +46,10 @@ class UH(desper.Handle):
         UH.n += 1
         self.res = ('res', UH.n)
 
+    loads = 0
+
     def load(self):
+        self.loads += 1
         return self.res
 
 
@@ -211,6 +214,18 @@ def run_case(case):
     mirror(snap, root, [], facts)
     nodes = []
     snapshots(snap, root, nodes)
+    # "...raises and changes nothing": the resources are unloaded first - a rejected mutation must not load them
+    all_handles = []
+
+    def collect(m):
+        for layer in m.handles.maps:
+            all_handles.extend(layer.values())
+        for sub in m.maps.values():
+            collect(sub)
+    collect(root)
+    for h in all_handles:
+        h.clear()
+    loads_before = [h.loads for h in all_handles]
     attempts = 0
     for s, src in nodes:
         existing = (list(src.handles)[:2] + list(src.maps)[:1])
@@ -229,6 +244,10 @@ def run_case(case):
         else:
             viol('mutation_of_snapshot_did_not_raise', how='assignment statement', name='fresh_attribute')
     facts['mutation_attempts'] = attempts
+    for h, n0 in zip(all_handles, loads_before):
+        if h.cached or h.loads != n0:
+            viol('rejected_mutation_of_the_snapshot_changed_something', what='a resource got loaded',
+                 resource=repr(h.res), cached=h.cached, loads=h.loads - n0)
     mirror(snap, root, [], facts)
     # it is a SNAPSHOT: what it yields does not move when the source map is changed afterwards
     before = observe(snap, root, [])
